@@ -585,7 +585,8 @@ class Histogram(MetricWrapperBase):
             registry=registry,
             _labelvalues=_labelvalues,
         )
-        self._kwargs['buckets'] = buckets
+        # Copy: later changes to the caller's sequence must not alter the layout of new children.
+        self._kwargs['buckets'] = list(buckets)
 
     def _prepare_buckets(self, source_buckets: Sequence[Union[float, str]]) -> None:
         buckets = [float(b) for b in source_buckets]
@@ -734,7 +735,8 @@ class Enum(MetricWrapperBase):
             raise ValueError(f'Overlapping labels for Enum metric: {name}')
         if not states:
             raise ValueError(f'No states provided for Enum metric: {name}')
-        self._kwargs['states'] = self._states = states
+        # Copy: later changes to the caller's sequence must not alter the metric or its children.
+        self._kwargs['states'] = self._states = list(states)
 
     def _metric_init(self) -> None:
         self._value = 0
